@@ -145,10 +145,7 @@ Theorem C12_alt_forms_value : forall v uw u l n0 rest forms,
   value_ok v -> scale_forms v rest = Ok forms ->
   alt_forms v uw = Ok ((v, uw) :: forms) /\
   Forall2 (fun f p => nmul v (fst p) = NOk (fst f) /\ snd f = snd p) forms rest.
-Proof.
-  intros v uw u l n0 rest forms H1 H2 H3 H4 H5.
-  exact (conj (alt_forms_value v uw u l n0 rest forms H1 H2 H3 H4 H5) (scale_forms_spec v rest forms H5)).
-Qed.
+Proof. exact alt_forms_value_spec. Qed.
 Print Assumptions C12_alt_forms_value.
 
 (** the sanity assert cannot fail for int and Fraction values ... *)
